@@ -18,9 +18,9 @@ from concurrent.futures import ProcessPoolExecutor, as_completed
 from dexsim import gen, oracles
 
 ROOT = os.path.dirname(os.path.dirname(os.path.abspath(__file__)))
-OUT = os.path.join(ROOT, "out")
+OUT = os.environ.get("DEXSIM_OUT_DIR") or os.path.join(ROOT, "out")
 REPLAYS = os.path.join(OUT, "replays")
-EVIDENCE = os.path.join(ROOT, "evidence")
+EVIDENCE = os.environ.get("DEXSIM_EVIDENCE_DIR") or os.path.join(ROOT, "evidence")
 KNOWN = os.path.join(ROOT, "known_findings.json")
 
 REAL_VS_STUB = {
@@ -328,6 +328,11 @@ def run_check(check_id, tier, seed, workers=None, max_wall=None, n_cases=None, v
            "vtime": 0.0, "invocations": 0, "threads": 0, "line_events": 0, "outcomes": {}, "cases": 0}
     samples = []
     raw_violations = []
+    cls_counts = {}
+    known_seen = {}
+    unknown_seen = {}
+    unknown_total = 0
+    known_now = [k for k in load_known() if k["property"] == check_id]
     errors = []
     truncated = False
     ctx = multiprocessing.get_context("fork")
@@ -372,13 +377,24 @@ def run_check(check_id, tier, seed, workers=None, max_wall=None, n_cases=None, v
                     samples.append(r["sample"])
                 for v in r["violations"]:
                     v["seed"] = r["seed"]
+                    key = (v["v"]["prop"], v["v"]["cls"])
+                    cls_counts[key] = cls_counts.get(key, 0) + 1
+                    if match_known(v["v"], known_now) is not None:
+                        known_seen[key] = known_seen.get(key, 0) + 1
+                        if known_seen[key] > 25:
+                            v["cfg"] = None  # keep the count, drop the bulky config
+                    else:
+                        unknown_total += 1
+                        unknown_seen[key] = unknown_seen.get(key, 0) + 1
+                        if unknown_seen[key] > 40:
+                            v["cfg"] = None
                     raw_violations.append(v)
             if time.time() - t0 > max_wall:
                 truncated = True
                 for f in pending:
                     f.cancel()
                 break
-            if len(raw_violations) > 400:
+            if unknown_total > 400:
                 truncated = True
                 for f in pending:
                     f.cancel()
@@ -403,7 +419,8 @@ def finish(check_id, check, tier, seed, t0, agg, samples, raw_violations, errors
     reported = []
     harness_msgs = []
     for (prop, cls), rvs in sorted(unknown.items()):
-        rv = min(rvs, key=lambda r: len(json.dumps(r["cfg"]["program"])) if "program" in r["cfg"] else 0)
+        rvs_c = [r for r in rvs if r.get("cfg")]
+        rv = min(rvs_c, key=lambda r: len(json.dumps(r["cfg"]["program"])) if "program" in r["cfg"] else 0)
         cfg = rv["cfg"]
         want = {"prop": prop, "cls": cls}
         try:
